@@ -163,12 +163,17 @@ def bigintent_cases(tier):
     """A concept with 17-18 properties in its intent (> 65 536 subsets): thresholds inside the
     enumeration only show there; the driver suspends its enumeration while others run."""
     import random as _r
-    for m in ([17] if tier == 'quick' else [17, 18, 18]):
-        rng = _r.Random(f'bigintent{m}')
-        n = 7
+    for k, m in enumerate([17, 17] if tier == 'quick' else [17, 17, 18, 18, 17]):
+        rng = _r.Random(f'bigintent{m}/{k}')
         full = (1 << m) - 1
-        rows = [full, full & ~(1 << 3), full & ~(1 << (m - 1)), rng.getrandbits(m), rng.getrandbits(m),
-                full & ~1 & ~(1 << 5), rng.getrandbits(m) | rng.getrandbits(m)]
+        last = 1 << (m - 1)
+        if k % 2 == 0:
+            rows = [full, full & ~(1 << 3), full & ~last, rng.getrandbits(m), rng.getrandbits(m),
+                    full & ~1 & ~(1 << 5), rng.getrandbits(m) | rng.getrandbits(m)]
+        else:
+            # the rows that contain the last property are narrow, rows without it are wide
+            rows = [full, full & ~last, full & ~last & ~1, last, last | 1, last | (1 << 4) | 2,
+                    (rng.getrandbits(m) | rng.getrandbits(m)) & ~last, full & ~last & ~(1 << 7)]
         yield dict(gen.case(f'BIGINTENT{m}', rows, m, 'plain'), bigintent=True)
 
 
